@@ -266,6 +266,19 @@ def run_case(case):
                 kind += "_raised"
             kinds.append(kind)
             c["steps_executed"] = c.get("steps_executed", 0) + 1
+            # the cached rows themselves: same rows in the same order for the rest of the history
+            for cr in cores:
+                p = cr["node"].payload
+                if p is None or not isinstance(p, iteration.RowIterable):
+                    continue
+                cur = [tuple(sorted((str(k), v) for k, v in r.items())) for r in p]
+                if cr.get("snapshot") is None:
+                    cr["snapshot"] = cur
+                else:
+                    c["cached_rows_rechecked"] = c.get("cached_rows_rechecked", 0) + 1
+                    if cur != cr["snapshot"] and not cr.get("snapshot_reported"):
+                        cr["snapshot_reported"] = True
+                        out["violations"].append({"kind": "cached_rows_changed", "detail": f"{what}: rows cached on {cr['spec']['prog'][2]} were {short(cr['snapshot'], 200)}, now {short(cur, 200)}"})
             out["violations"].extend(shadow.sweep([e["rel"] for e in pool], f"during {what}"))
             if len(out["violations"]) > 6:
                 break
